@@ -1,10 +1,12 @@
 """Helpers shared by the rules that compare kernel summaries (keval.Summary) with reference forms."""
 from __future__ import annotations
 
+import ast
 from typing import Dict, List, Optional, Tuple, Iterable, Set
 
 from .keval import Summary, Store, Loop, Cond, Ref, TOP, Top, SLICE
 from .poly import Poly, ZERO, ONE
+from .model import norm_text
 
 
 def value_poly(v) -> Optional[Poly]:
@@ -305,3 +307,58 @@ def ref_store(idx, op, value, loops, guards=()):
     """reference counterpart of canon_store, written with L0, L1, ... as loop atoms"""
     return (tuple(repr(x) for x in idx), op, repr(value) if not isinstance(value, tuple) else tuple(map(repr, value)),
             tuple((repr(a), repr(b), repr(c)) for a, b, c in loops), tuple(sorted(str(norm_cond(g)) for g in guards)))
+
+
+# ---------------------------------------------------------------------------------------------------------------------
+S_ = Poly.sym
+def expr_poly(e: ast.expr, resolve=None) -> Poly:
+    """numpy-level arithmetic as a polynomial over names (commutative ring; matrix products kept as ordered applications).
+    resolve: optional function Name-node -> expression it stands for (or None), applied before a name becomes a symbol"""
+    if resolve is not None and isinstance(e, ast.Name):
+        r = resolve(e)
+        if r is not None:
+            return expr_poly(r, resolve)
+    if isinstance(e, ast.Name):
+        return S_(e.id)
+    if isinstance(e, ast.Constant) and isinstance(e.value, (int, float)) and not isinstance(e.value, bool):
+        return Poly.const(e.value)
+    if isinstance(e, ast.UnaryOp) and isinstance(e.op, ast.USub):
+        return -expr_poly(e.operand, resolve)
+    if isinstance(e, ast.UnaryOp) and isinstance(e.op, ast.Invert):
+        return Poly.fn("not", expr_poly(e.operand, resolve))
+    if isinstance(e, ast.BinOp):
+        a, b = expr_poly(e.left, resolve), expr_poly(e.right, resolve)
+        if isinstance(e.op, ast.Add):
+            return a + b
+        if isinstance(e.op, ast.Sub):
+            return a - b
+        if isinstance(e.op, ast.Mult):
+            return a * b
+        if isinstance(e.op, ast.Div):
+            try:
+                return a / b
+            except Exception:
+                return Poly.fn("div", a, b)
+        if isinstance(e.op, ast.MatMult):
+            return Poly.fn("matmul", a, b)
+    if isinstance(e, ast.Call):
+        t = norm_text(e.func)
+        if t in ("np.dot", "numpy.dot", "np.matmul") and len(e.args) == 2:
+            return Poly.fn("matmul", expr_poly(e.args[0], resolve), expr_poly(e.args[1], resolve))
+        if isinstance(e.func, ast.Attribute) and e.func.attr == "dot" and len(e.args) == 1:
+            return Poly.fn("matmul", expr_poly(e.func.value, resolve), expr_poly(e.args[0], resolve))
+    if isinstance(e, ast.Subscript):
+        idx = e.slice.elts if isinstance(e.slice, ast.Tuple) else [e.slice]
+        return Poly.fn("index", expr_poly(e.value, resolve), *[S_(norm_text(i)) if isinstance(i, ast.Slice) else expr_poly(i, resolve) for i in idx])
+    if isinstance(e, ast.Compare) and len(e.ops) == 1:
+        a, b, op = e.left, e.comparators[0], type(e.ops[0]).__name__
+        if op in ("Gt", "GtE"):  # canonical orientation
+            a, b, op = b, a, {"Gt": "Lt", "GtE": "LtE"}[op]
+        return Poly.fn("cmp:" + op, expr_poly(a, resolve), expr_poly(b, resolve))
+    return Poly.atom(("s", "<" + norm_text(e) + ">"))
+
+
+def src_poly(src: str) -> Poly:
+    return expr_poly(ast.parse(src, mode="eval").body)
+
+
